@@ -127,6 +127,8 @@ def sym_array(prefix, shape, dtype=_np.float32, **varkw):
     for idx in _np.ndindex(*shape):
         name = prefix + "".join("_%d" % i for i in idx)
         o[idx] = S(sc.var(name, **varkw))
+        if name not in CTX.model:
+            CTX.model[name] = CTX.sampler(name, varkw) if getattr(CTX, "sampler", None) else 0.5
     o = o.view(SymArray)
     o._nd = _np.dtype(dtype)
     return o
